@@ -1,4 +1,8 @@
 import NanoVerif.Proofs.ScalingLemmas
+import NanoVerif.Proofs.ScalingGen
+import NanoVerif.Proofs.ScalingTop
+import NanoVerif.Proofs.ScalingClass
+import Mathlib.Tactic.Positivity
 import Mathlib.Algebra.Order.Field.Rat
 import Mathlib.Tactic.NormNum
 /-!
@@ -14,10 +18,48 @@ import Mathlib.Tactic.NormNum
     `sqrt v * sqrt v = v` at the variance `v` of that column and `eps ≤ sqrt v`; everything else holds whatever `sqrt` returns;
   * `lo ≤ v ≤ hi` for the present values: a finite double lies within `numeric_limits::lowest()/max()`, the starting
     values of the running maximum / minimum.
+
+  ## Gap table (gap-closing round): every function of the anchored files
+  `modelled` = hand-written Lean definition run against the code; `translated` = regenerated from the source text into
+  `Gen/ScalingGuards.lean` on every check and proved equal to the modelled text (`Proofs/ScalingGen.lean`, `model_*_is_generated`,
+  any scalar type); `oracle` = parameter with a contract; `outside` = not in the model.
+
+  src/dataset/stats.cpp
+  | function (lines)                                   | status                | Lean                                                        |
+  |----------------------------------------------------|-----------------------|-------------------------------------------------------------|
+  | `::nan2zero` (10-23)                               | modelled + translated | `nan2zero` = `Gen.nan2zero` (`model_nan2zero_is_generated`)  |
+  | `::make_features` (25-47), `make_sclass/mclass/scalar/struct_features` (233-251) | outside | index lists of features by kind; not used by any scaling path (C08 covers feature bookkeeping) |
+  | `::make_scaling` (49-79)                           | modelled + translated | `makeScaling` = `Gen.makeScaling`; the `m_min.size() > 0` guard: see `upscaleAffine` (sizes must match, else `none`) |
+  | `::update(scalar_stats_t&, values)` (81-100)       | modelled + translated | `Acc.push`, `accumulate` = fold of `Gen.updateColumn` (`model_push_is_generated`) |
+  | `::done(scalar_stats_t&, enable_scaling)` (102-146)| modelled + translated | `finalize` = `Gen.doneColumn` (`model_finalize_is_generated`); ε = `Gen.epsilon2` (from numeric.h: `epsilon2`, `roundpow10`, `epsilon`), `epsilon2_pos` |
+  | `::alloc_xclass_stats`, `::update(xclass_stats_t&)`, `::done(xclass_stats_t&)`, `::make_xclass_stats` ×2 (148-208), `xclass_stats_t::make_targets_stats / make_feature_stats` (452-491) | modelled | `Model/ScalingClass.lean`: `classCounts` / `incAt`, `sampleClasses`, `classWeights`, `xclassStats`, `xclassFor` (`none` = `critical0`); with `nano::make_hashes` (src/dataset/hash.cpp) = `setInsert` / `makeHashes` and `nano::find` (include/nano/dataset/hash.h) = `lowerBound` / `find`; `nano::hash` of an indicator row is an oracle (reported per sample by the harness; sclass: the label). Theorems: `makeHashes_sorted`, `mem_makeHashes`, `find_spec`, `sample_classified`, `class_weights_pos`. (No caller in the library besides test_dataset_stats.cpp; the property statement does not mention class weights.) NOT proved: counts = number of samples per class as a closed formula, total weight per class = norm (checked by the python oracle on every case: keys xclass-counts / xclass-balance) |
+  | `nano::upscale(flatten_stats, …, weights, bias)` (211-231) | modelled      | `upscaleAffine` / `upscaleAffineRow` (the two matrix statements are Eigen expressions: compared with 1e-12·Σ|terms|) |
+  | `scalar_stats_t::scalar_stats_t(dims)` (253-264)   | modelled + translated | `Acc.init` = `Gen.initColumn` (`model_init_is_generated`)     |
+  | `scalar_stats_t::make_flatten_stats` (266-290)     | modelled              | `flattenStats`, `enableMask` (`enableMask_spec` against `column2feature`); batching loop: C09 `Iterator.makeStats` (`stats_batch_independent`); `dataset.flatten`: C08 |
+  | `scalar_stats_t::make_targets_stats` (292-320)     | modelled              | `targetsStats` (`none` = `critical0`; mask by target kind; one entry per component of `target_dims`) |
+  | `scalar_stats_t::make_feature_stats` (322-355)     | modelled              | `featureStats` (`none` = `critical0` for categorical; scalar and struct branch differ only in the buffer rank) |
+  | `scalar_stats_t::scale(…, tensor2d_map_t)` (357-400)| modelled + translated| `scaleCell`, `scaleRow` = `Gen.scaleCell` (`model_scale_is_generated`); `default: throw` unreachable for the 4 enumerators (`Mode.ofNat?` = `none` ⇒ harness refuses) |
+  | `scalar_stats_t::scale(…, tensor4d_map_t)` (402-407)| modelled             | `scale4` + `Dims3.off` / `get4` (row-major addressing of the reshaped tensor) |
+  | `scalar_stats_t::upscale(…, tensor2d_map_t)` (409-443)| modelled + translated | `upscaleCell`, `upscaleRow` = `Gen.upscaleCell` (`model_upscale_is_generated`) |
+  | `scalar_stats_t::upscale(…, tensor4d_map_t)` (445-450)| modelled           | `upscale4`                                                   |
+  include/nano/dataset/stats.h: declarations of the above; the attribute list of `scalar_stats_t` is translated (`Gen.Col`, in declaration order).
+  include/nano/dataset/scaling.h: `enum class scaling_type` translated (`Gen.ScalingType`, `Mode.toGen`); `enum_string` outside (C19: enum maps).
+  src/linear.cpp, src/dataset/iterator.cpp (anchors): `flatten_iterator_t` statistics / scaling are run by the harness against the direct calls
+  (flag in the answer) and modelled in C09 (`Model/Iterator.lean` on top of this model); `linear_t::fit / do_predict` call
+  `nano::upscale` + `linear::predict`: both executed by the harness, the solver run itself is outside (C01/C11).
+
+  `oracle` items: `Sqrt.sqrt` (`std::sqrt`: enters `standard_unit` only, as `sqrt v · sqrt v = v` at the one variance of the column — Float.sqrt in the
+  driver; everything else holds whatever `sqrt` returns); `FinTest.isFin` (`std::isfinite`: always true in exact arithmetic, `Float.isFinite` in
+  the driver). No other contract is left: `0 < eps` is `epsilon2_pos` for the regenerated constant; `Stats.WF` is `div_mul_one` for everything
+  `done` produces. Hypotheses re-examined: `hb` (values within `[lo, hi]`) of `minmax_range` / `mean_centered` is necessary only through the
+  running min/max starting values and holds for every finite double; `eps ≤ range` / `eps ≤ sd` in the second halves are necessary: below ε the
+  advertised range / deviation is `range/ε` / `sd/ε`, not 1 — the regime witnesses among the examples (range `1/100000001 < ε`) and the boundary
+  cases of the generator (range / deviation exactly ε, one ulp below, one ulp above) replay it on the real code.
 -/
 set_option linter.unusedSectionVars false
 
 namespace NanoVerif.Scaling
+open NanoVerif.Gen
 variable {α : Type} [Field α] [LinearOrder α] [IsStrictOrderedRing α]
 
 /-! ### invertibility -/
@@ -358,6 +400,281 @@ theorem affine_upscale_guard (fm tm : Mode) (fs ts : List (Stats α)) (W : List 
   unfold upscaleAffine
   simp [h]
 
+
+/-! ### gap-closing round: the ε guards regime by regime, the source text, one-pass variance, entry points, 4-D targets -/
+
+/-- `div_mul_one` over **the case split `::done` makes** (stats.cpp:106-145), with the exact value of every (de)normaliser:
+    masked component; `N = 0`; `N = 1`; `N ≥ 2` with the range below / at-or-above `ε` and the deviation below / at-or-above `ε`
+    (a range or deviation of exactly `ε` is in the "at-or-above" regime and gives `ε` either way). In every regime the products are
+    exactly 1 and the multipliers positive. (Seeded changes this pins: finalisation for `N > 2` only; multipliers guarded by the
+    deviation while the divisors keep the range clamp; categorical components with one sample; dropped variance clamp.) -/
+theorem div_mul_one_regimes [Sqrt α] (eps : α) (heps : 0 < eps) (enabled : Bool) (a : Acc α) :
+    (enabled = false → finalize eps enabled a = ⟨a.n, 0, 0, 0, 0, 1, 1, 1, 1⟩) ∧
+    (enabled = true → a.n = 0 → finalize eps enabled a = ⟨a.n, 0, 0, 0, 0, 1, 1, 1, 1⟩) ∧
+    (enabled = true → a.n = 1 → finalize eps enabled a = ⟨a.n, a.mn, a.mx, a.sum, 0, 1, 1, 1, 1⟩) ∧
+    (enabled = true → 2 ≤ a.n →
+      (finalize eps enabled a).n = a.n ∧ (finalize eps enabled a).mn = a.mn ∧ (finalize eps enabled a).mx = a.mx ∧
+      (finalize eps enabled a).mean = a.sum / (a.n : α) ∧
+      (finalize eps enabled a).sd = Sqrt.sqrt (cmax (rawVar a) 0) ∧
+      (a.mx - a.mn < eps → (finalize eps enabled a).mulRange = eps ∧ (finalize eps enabled a).divRange = 1 / eps) ∧
+      (eps ≤ a.mx - a.mn → (finalize eps enabled a).mulRange = a.mx - a.mn ∧
+        (finalize eps enabled a).divRange = 1 / (a.mx - a.mn)) ∧
+      ((finalize eps enabled a).sd < eps → (finalize eps enabled a).mulSd = eps ∧ (finalize eps enabled a).divSd = 1 / eps) ∧
+      (eps ≤ (finalize eps enabled a).sd → (finalize eps enabled a).mulSd = (finalize eps enabled a).sd ∧
+        (finalize eps enabled a).divSd = 1 / (finalize eps enabled a).sd)) ∧
+    ((finalize eps enabled a).divRange * (finalize eps enabled a).mulRange = 1 ∧
+      (finalize eps enabled a).divSd * (finalize eps enabled a).mulSd = 1 ∧
+      0 < (finalize eps enabled a).mulRange ∧ 0 < (finalize eps enabled a).mulSd) := by
+  refine ⟨?_, ?_, ?_, ?_, ?_⟩
+  · rintro rfl; simp [finalize]
+  · rintro rfl h0; simp [finalize, h0]
+  · rintro rfl h1; simp [finalize, h1]
+  · rintro rfl h2
+    have h1 : a.n > 1 := by omega
+    simp only [finalize, h1, if_true, true_and]
+    refine ⟨fun h => ?_, fun h => ?_, fun h => ?_, fun h => ?_⟩
+    · rw [cmax_of_lt h]; exact ⟨rfl, rfl⟩
+    · rw [cmax_of_le h]; exact ⟨rfl, rfl⟩
+    · rw [cmax_of_lt h]; exact ⟨rfl, rfl⟩
+    · rw [cmax_of_le h]; exact ⟨rfl, rfl⟩
+  · obtain ⟨h1, h2⟩ := finalize_wf eps heps enabled a
+    refine ⟨h1, h2, ?_, ?_⟩
+    · unfold finalize
+      cases enabled
+      · simp
+      · simp only [if_true]
+        split
+        · exact lt_of_lt_of_le heps (le_cmax_right _ _)
+        · split <;> simp
+    · unfold finalize
+      cases enabled
+      · simp
+      · simp only [if_true]
+        split
+        · exact lt_of_lt_of_le heps (le_cmax_right _ _)
+        · split <;> simp
+
+/-- `epsilon2<scalar_t>()` as regenerated from `numeric.h` (10⁻⁸) is positive: the hypothesis `0 < eps` of every theorem above
+    holds for the constant the code uses -/
+theorem epsilon2_pos : (0 : α) < ScalingGuards.epsilon2 := by
+  unfold ScalingGuards.epsilon2
+  positivity
+
+/-- `div_mul_one` **about the source text**: the body of the loop of `::done` as regenerated from `stats.cpp`
+    (`Gen.ScalingGuards.doneColumn`), with the regenerated `epsilon2`, on any accumulated component, masked or not. -/
+theorem div_mul_one_generated [Sqrt α] (masked : Bool) (a : Acc α) :
+    (ScalingGuards.doneColumn Sqrt.sqrt ScalingGuards.epsilon2 masked a.toCol).div_range *
+      (ScalingGuards.doneColumn Sqrt.sqrt ScalingGuards.epsilon2 masked a.toCol).mul_range = 1 ∧
+    (ScalingGuards.doneColumn Sqrt.sqrt ScalingGuards.epsilon2 masked a.toCol).div_stdev *
+      (ScalingGuards.doneColumn Sqrt.sqrt ScalingGuards.epsilon2 masked a.toCol).mul_stdev = 1 := by
+  have h := model_finalize_is_generated (ScalingGuards.epsilon2 : α) (!masked) a
+  rw [Bool.not_not] at h
+  have hwf := finalize_wf (ScalingGuards.epsilon2 : α) epsilon2_pos (!masked) a
+  rw [h] at hwf
+  exact hwf
+
+/-- invertibility **about the source text**: the regenerated `switch` of `scalar_stats_t::upscale` undoes the regenerated
+    `switch` of `scalar_stats_t::scale` on every finite value, for statistics produced by the regenerated `::update` fold /
+    `::done` body with the regenerated `epsilon2` — every mode, every data column, masked or not. -/
+theorem upscale_scale_id_generated [Sqrt α] [FinTest α] (hfin : ∀ y : α, FinTest.isFin y = true)
+    (hi lo : α) (masked : Bool) (xs : List (Option α)) (m : Mode) (x : α) :
+    ScalingGuards.upscaleCell m.toGen
+        (ScalingGuards.doneColumn Sqrt.sqrt ScalingGuards.epsilon2 masked (accumulate hi lo xs).toCol)
+      (ScalingGuards.scaleCell FinTest.isFin m.toGen
+        (ScalingGuards.doneColumn Sqrt.sqrt ScalingGuards.epsilon2 masked (accumulate hi lo xs).toCol) x) = x := by
+  have h := model_finalize_is_generated (ScalingGuards.epsilon2 : α) (!masked) (accumulate hi lo xs)
+  rw [Bool.not_not] at h
+  have hid := upscale_scale_id hfin hi lo (ScalingGuards.epsilon2 : α) epsilon2_pos (!masked) xs m x
+  rw [model_upscale_is_generated, model_scale_is_generated] at hid
+  have hc : (columnStats hi lo (ScalingGuards.epsilon2 : α) (!masked) xs).toCol =
+      ScalingGuards.doneColumn Sqrt.sqrt ScalingGuards.epsilon2 masked (accumulate hi lo xs).toCol := by
+    unfold columnStats
+    rw [h]
+    rfl
+  rw [hc] at hid
+  exact hid
+
+/-- the one-pass formula the code accumulates, `(Σx² − (Σx)²/N)/(N − 1)`, IS the two-pass definition of the unbiased variance,
+    `Σ(x − x̄)²/(N − 1)` with `x̄ = Σx/N`, exactly (any ordered field). At `Float` the one-pass form cancels: the oracle allows
+    `1e-15·(N + 10)·Σx²` on `(N − 1)·variance` against the exactly (rationally) evaluated two-pass value. -/
+theorem onepass_eq_twopass (hi lo : α) (xs : List (Option α)) (hne : present xs ≠ []) :
+    rawVar (accumulate hi lo xs) =
+      ((present xs).map (fun x => (x - (present xs).sum / ((present xs).length : α)) *
+        (x - (present xs).sum / ((present xs).length : α)))).sum / (((present xs).length : α) - 1) := by
+  obtain ⟨hn, hsum, hsum2, -, -⟩ := accumulate_spec hi lo xs
+  simp only [rawVar, hn, hsum, hsum2]
+  rw [sumSq_sub_eq (present xs) hne]
+
+/-! ### the entry points: which components are rescaled -/
+
+/-- `make_flatten_stats`: a flatten column owned (through `column2feature`) by a single-label or multi-label feature gets the
+    identity statistics whatever data it holds (one valid sample, constant, anything), and `scale` / `upscale` leave every finite
+    value of it unchanged in every mode; a column owned by a continuous feature gets `columnStats` of that column alone. -/
+theorem flatten_categorical_never_rescaled [Sqrt α] [FinTest α] (hfin : ∀ y : α, FinTest.isFin y = true)
+    (hi lo eps : α) (fs : List Feat) (rows : List (List (Option α))) (c i : Nat) (f : Feat)
+    (hc : column2feature fs c = some i) (hf : fs[i]? = some f) :
+    (f.isClass = true → ∃ s, (flattenStats hi lo eps fs rows)[c]? = some s ∧
+        s = ⟨(accumulate hi lo (colOf rows c)).n, 0, 0, 0, 0, 1, 1, 1, 1⟩ ∧
+        ∀ (m : Mode) (x : α), scaleCell m s (some x) = x ∧ upscaleCell m s x = x) ∧
+    (f.isClass = false → (flattenStats hi lo eps fs rows)[c]? = some (columnStats hi lo eps true (colOf rows c))) := by
+  obtain ⟨g, hg, hm⟩ := enableMask_spec fs c i hc
+  rw [hf] at hg
+  cases hg
+  have hs := statsOfMask_getElem? hi lo eps (enableMask fs) rows c
+  rw [hm] at hs
+  simp only [Option.map_some] at hs
+  constructor
+  · intro hcl
+    rw [hcl] at hs
+    refine ⟨_, hs, by simp [columnStats, finalize], fun m x => ?_⟩
+    exact categorical_identity hfin hi lo eps (colOf rows c) m x
+  · intro hcl
+    rw [hcl] at hs
+    exact hs
+
+/-- `make_targets_stats` refuses an unsupervised dataset, rescales no component of a classification target and every component
+    of a regression target; `make_feature_stats` refuses a categorical feature (the two `critical0`). -/
+theorem targets_and_feature_stats_guards [Sqrt α] (hi lo eps : α) (t : Feat) (rows : List (List (Option α))) :
+    targetsStats hi lo eps none rows = none ∧
+    (∀ c, c < t.cols → ((targetsStats hi lo eps (some t) rows).bind (fun ss => ss[c]?)) =
+      some (columnStats hi lo eps (!t.isClass) (colOf rows c))) ∧
+    (t.isClass = true → featureStats hi lo eps t rows = none) ∧
+    (t.isClass = false → ∀ c, c < t.cols → ((featureStats hi lo eps t rows).bind (fun ss => ss[c]?)) =
+      some (columnStats hi lo eps true (colOf rows c))) := by
+  refine ⟨rfl, fun c hc => ?_, fun h => by simp [featureStats, h], fun h c hc => ?_⟩
+  · simp only [targetsStats, Option.bind_some, statsOfMask_getElem?]
+    simp [hc]
+  · simp only [featureStats, h, Bool.false_eq_true, if_false, Option.bind_some, statsOfMask_getElem?]
+    simp [hc]
+
+/-! ### structured (4-D) targets and features -/
+
+/-- scaling of structured targets / features with dims `(d1, d2, d3)` is **component-wise**: the statistics of component
+    `(i, j, k)` are `columnStats` of the values at `(i, j, k)` of the samples alone (column `off i j k` of the reshaped matrix;
+    distinct components own distinct columns below `size`), and `scale(scaling, tensor4d)` maps the element `(s, i, j, k)` through
+    `scaleCell` with exactly those statistics, for every sample `s` — whenever the call is legal (every sample has `size` values). -/
+theorem targets_scaling_componentwise [Sqrt α] [FinTest α] (hi lo eps : α) (en : Bool) (d : Dims3) (m : Mode)
+    (rows t : List (List (Option α))) (t' : List (List α))
+    (h : scale4 m (statsOfMask hi lo eps (List.replicate d.size en) rows) t = some t')
+    (s i j k : Nat) (hi' : i < d.d1) (hj : j < d.d2) (hk : k < d.d3) :
+    d.off i j k < d.size ∧
+    (∀ i' j' k', j' < d.d2 → k' < d.d3 → d.off i j k = d.off i' j' k' → i = i' ∧ j = j' ∧ k = k') ∧
+    (statsOfMask hi lo eps (List.replicate d.size en) rows)[d.off i j k]? =
+      some (columnStats hi lo eps en (rows.map (fun r => (r[d.off i j k]?).join))) ∧
+    get4 d t' s i j k = ((t[s]?).map (fun r => (r[d.off i j k]?).join)).map
+      (scaleCell m (columnStats hi lo eps en (rows.map (fun r => (r[d.off i j k]?).join)))) := by
+  have hlt := d.off_lt i j k hi' hj hk
+  have hst : (statsOfMask hi lo eps (List.replicate d.size en) rows)[d.off i j k]? =
+      some (columnStats hi lo eps en (rows.map (fun r => (r[d.off i j k]?).join))) := by
+    rw [statsOfMask_getElem?]
+    simp [hlt, colOf]
+  refine ⟨hlt, fun i' j' k' hj' hk' he => d.off_inj i j k i' j' k' hj hk hj' hk' he, hst, ?_⟩
+  obtain ⟨-, hget⟩ := mapM_some_getElem? _ t t' h
+  unfold get4
+  rw [hget s]
+  cases hts : t[s]? with
+  | none => simp
+  | some r =>
+    simp only [Option.bind_some, Option.map_some]
+    unfold scaleRow
+    split
+    · rename_i hlen
+      simp only [Option.bind_some, List.getElem?_zipWith]
+      have hlen' : d.size = r.length := by simpa [statsOfMask_length] using hlen
+      have hr : d.off i j k < r.length := by omega
+      rw [hst]
+      simp [List.getElem?_eq_getElem hr]
+    · -- an ill-sized sample makes the whole call illegal: contradiction with `h`
+      exfalso
+      have := hget s
+      rw [hts] at this
+      simp only [Option.bind_some] at this
+      unfold scaleRow at this
+      rename_i hlen
+      simp only [hlen, if_false] at this
+      have hl := (mapM_some_getElem? _ t t' h).1
+      have hs : s < t.length := by
+        by_contra hn
+        rw [List.getElem?_eq_none (by omega)] at hts
+        cases hts
+      rw [List.getElem?_eq_getElem (by omega)] at this
+      cases this
+
+/-- `upscale(scaling, tensor4d)` undoes `scale(scaling, tensor4d)` on finite 4-D values, for the statistics of any data -/
+theorem targets_roundtrip4 [Sqrt α] [FinTest α] (hfin : ∀ y : α, FinTest.isFin y = true) (hi lo eps : α) (heps : 0 < eps)
+    (mask : List Bool) (m : Mode) (rows : List (List (Option α))) :
+    ∀ (t : List (List α)), (∀ r ∈ t, r.length = mask.length) →
+      (scale4 m (statsOfMask hi lo eps mask rows) (t.map (fun r => r.map some))).bind
+        (upscale4 m (statsOfMask hi lo eps mask rows)) = some t
+  | [], _ => by simp [scale4, upscale4]
+  | r :: t, hl => by
+    have ih := targets_roundtrip4 hfin hi lo eps heps mask m rows t (fun r' h' => hl r' (by simp [h']))
+    have hrow := upscale_scale_id_row hfin m (statsOfMask hi lo eps mask rows) r
+      (statsOfMask_wf hi lo eps heps mask rows) (by rw [statsOfMask_length]; exact (hl r (by simp)).symm)
+    simp only [scale4, upscale4] at ih ⊢
+    simp only [List.map_cons, List.mapM_cons]
+    cases hs : scaleRow m (statsOfMask hi lo eps mask rows) (r.map some) with
+    | none => simp [hs] at hrow
+    | some sr =>
+      simp only [hs, Option.bind_some] at hrow
+      cases hst : (t.map (fun r => r.map some)).mapM (scaleRow m (statsOfMask hi lo eps mask rows)) with
+      | none => simp [hst] at ih
+      | some st =>
+        simp only [hst, Option.bind_some] at ih
+        have ih' : List.mapM (upscaleRow m (statsOfMask hi lo eps mask rows)) st = some t := ih
+        show List.mapM (upscaleRow m (statsOfMask hi lo eps mask rows)) (sr :: st) = some (r :: t)
+        rw [List.mapM_cons, hrow, ih']
+        rfl
+
+
+/-! ### class statistics (`xclass_stats_t`) -/
+
+/-- the class-balancing weights are positive: with every class count `≥ 1` (each class hash comes from a present sample, which
+    `find` maps to that class: `sample_classified`), `norm = 1/Σ_c 1/count_c > 0` and every classified sample gets
+    `norm / count_c > 0`; a sample without class gets exactly 0. -/
+theorem class_weights_pos (counts : List Nat) (hpos : ∀ n ∈ counts, 1 ≤ n) (hne : counts ≠ []) (classes : List Int) :
+    ∀ p ∈ List.zip classes (classWeights (α := α) counts classes),
+      (p.1 < 0 → p.2 = 0) ∧ (0 ≤ p.1 → p.1.toNat < counts.length → 0 < p.2) := by
+  have hsum : ∀ (l : List Nat) (acc : α), (∀ n ∈ l, 1 ≤ n) → 0 ≤ acc → (l ≠ [] ∨ 0 < acc) →
+      0 < (l.map (fun (n : Nat) => (1 : α) / ((n : Nat) : α))).foldl (· + ·) acc := by
+    intro l
+    induction l with
+    | nil => intro acc _ _ h; rcases h with h | h; exact absurd rfl h; simpa using h
+    | cons n l ih =>
+      intro acc hl hacc _
+      have hn : (0 : α) < (n : α) := by
+        have : 1 ≤ n := hl n (by simp)
+        exact_mod_cast this
+      have h1 : (0 : α) < 1 / (n : α) := one_div_pos.mpr hn
+      simp only [List.map_cons, List.foldl_cons]
+      exact ih _ (fun m hm => hl m (by simp [hm])) (by linarith) (Or.inr (by linarith))
+  have hnorm : (0 : α) < 1 / (counts.map (fun (n : Nat) => (1 : α) / ((n : Nat) : α))).foldl (· + ·) 0 :=
+    one_div_pos.mpr (hsum counts 0 hpos le_rfl (Or.inl hne))
+  intro p hp
+  unfold classWeights at hp
+  rw [List.zip_map_right] at hp
+  simp only [List.mem_map] at hp
+  obtain ⟨q, hq, rfl⟩ := hp
+  have hq' : q.1 = q.2 := by
+    have := List.mem_iff_getElem.mp hq
+    obtain ⟨i, hi, he⟩ := this
+    simp only [List.getElem_zip] at he
+    rw [← he]
+  simp only [Prod.map_fst, id_eq, Prod.map_snd]
+  rw [← hq']
+  constructor
+  · intro hneg
+    simp [not_le.mpr hneg]
+  · intro h0 hlt
+    simp only [h0, if_true]
+    apply div_pos hnorm
+    have hmem : counts.getD q.1.toNat 0 ∈ counts := by
+      have : counts.getD q.1.toNat 0 = counts[q.1.toNat] := by simp [List.getD_eq_getElem?_getD, hlt]
+      rw [this]
+      exact List.getElem_mem hlt
+    have : 1 ≤ counts.getD q.1.toNat 0 := hpos _ hmem
+    exact_mod_cast this
+
 /-! ### non-vacuity (ℚ; `sqrt` on the one value that occurs) -/
 
 section examples
@@ -389,6 +706,47 @@ example : upscaleCell .standard (columnStats (100 : ℚ) (-100) (1 / 100000000) 
     (scaleCell .standard (columnStats (100 : ℚ) (-100) (1 / 100000000) true [some (1 / 10), some (1 / 10), some (1 / 10)])
       (some (7 / 3))) = 7 / 3 :=
   upscale_scale_id (fun _ => rfl) 100 (-100) (1 / 100000000) (by norm_num) true _ .standard (7 / 3)
+/-! the regimes of `div_mul_one_regimes`, one witness each (ε = 10⁻⁸; the local `sqrt` returns 0 except at 1) -/
+/-- range exactly ε (N = 2): the "at-or-above" regime, multiplier = range = ε -/
+example : (columnStats (100 : ℚ) (-100) (1 / 100000000) true [some 0, some (1 / 100000000)]).mulRange = 1 / 100000000 ∧
+    (columnStats (100 : ℚ) (-100) (1 / 100000000) true [some 0, some (1 / 100000000)]).divRange = 100000000 := by
+  norm_num [columnStats, finalize, accumulate, Acc.init, Acc.push, rawVar, cmin, cmax, Sqrt.sqrt]
+/-- range just below ε: clamped to ε -/
+example : (columnStats (100 : ℚ) (-100) (1 / 100000000) true [some 0, some (1 / 100000001)]).mulRange = 1 / 100000000 := by
+  norm_num [columnStats, finalize, accumulate, Acc.init, Acc.push, rawVar, cmin, cmax, Sqrt.sqrt]
+/-- range just above ε: the range itself -/
+example : (columnStats (100 : ℚ) (-100) (1 / 100000000) true [some 0, some (1 / 99999999)]).mulRange = 1 / 99999999 := by
+  norm_num [columnStats, finalize, accumulate, Acc.init, Acc.push, rawVar, cmin, cmax, Sqrt.sqrt]
+/-- N = 1 and N = 0 and a masked component -/
+example : columnStats (100 : ℚ) (-100) (1 / 100000000) true [none, some 7] = ⟨1, 7, 7, 7, 0, 1, 1, 1, 1⟩ := by
+  norm_num [columnStats, finalize, accumulate, Acc.init, Acc.push, cmin, cmax]
+example : columnStats (100 : ℚ) (-100) (1 / 100000000) true [none, none] = ⟨0, 0, 0, 0, 0, 1, 1, 1, 1⟩ := by
+  norm_num [columnStats, finalize, accumulate, Acc.init, Acc.push]
+example : columnStats (100 : ℚ) (-100) (1 / 100000000) false [some 1, some (-1)] = ⟨2, 0, 0, 0, 0, 1, 1, 1, 1⟩ := by
+  norm_num [columnStats, finalize, accumulate, Acc.init, Acc.push, cmin, cmax]
+/-- deviation ≥ ε regime (variance 1) is `exData` above; the regenerated ε is the one used there -/
+example : (ScalingGuards.epsilon2 : ℚ) = 1 / 100000000 := rfl
+example : ScalingGuards.epsilon2Exp10 = -8 := rfl
+/-- `onepass_eq_twopass` / `upscale_scale_id_generated` have satisfiable hypotheses -/
+example : present exData ≠ [] := by simp [exData, present]
+example : ∀ y : ℚ, FinTest.isFin y = true := fun _ => rfl
+/-- `flatten_categorical_never_rescaled`: a single-label feature with 2 flatten columns followed by a scalar one -/
+example : column2feature [⟨.sclass, 2⟩, ⟨.scalar, 1⟩] 1 = some 0 ∧ column2feature [⟨.sclass, 2⟩, ⟨.scalar, 1⟩] 2 = some 1 ∧
+    column2feature [⟨.sclass, 2⟩, ⟨.scalar, 1⟩] 3 = none ∧ enableMask [⟨.sclass, 2⟩, ⟨.scalar, 1⟩] = [false, false, true] := by
+  decide
+/-- `targets_scaling_componentwise`: a legal call on a `(1, 2, 1)` target with two samples -/
+example : (scale4 .minmax (statsOfMask (100 : ℚ) (-100) (1 / 100000000) (List.replicate (Dims3.size ⟨1, 2, 1⟩) true)
+      [[some 1, some 2], [some 3, some 5]]) [[some 1, some 2], [some 3, none]]).isSome = true := by
+  simp [scale4, scaleRow, statsOfMask, Dims3.size]
+example : (Dims3.off ⟨2, 3, 2⟩ 1 2 1) = 11 ∧ Dims3.size ⟨2, 3, 2⟩ = 12 := by decide
+/-- `targets_roundtrip4`: samples of the right length exist -/
+example : ∀ r ∈ [[(1 : ℚ), 2], [3, 5]], r.length = [true, true].length := by simp
+
+/-- class statistics: labels 2, 0, missing, 2 → hashes [0, 2], counts [1, 2], classes [1, 0, −1, 1], weights 1/3, 2/3, 0, 1/3 -/
+example : (xclassStats (α := ℚ) [(true, 2), (true, 0), (false, 18446744073709551615), (true, 2)]) =
+    ⟨[0, 2], [1, 2], [1, 0, -1, 1], [1 / 3, 2 / 3, 0, 1 / 3]⟩ := by
+  norm_num [xclassStats, makeHashes, setInsert, sampleClasses, find, lowerBound, classCounts, incAt, classWeights,
+    List.replicate_succ]
 /-- a legal call of the affine conversion (2 inputs, 1 output), so the hypothesis of `affine_upscale_same_predictor`
     is satisfiable; and an illegal one is refused -/
 example : (upscaleAffine .standard
